@@ -1,5 +1,6 @@
 import Pi2.MM.TranslateThm
 import Pi2.Props.C15
+import Pi2.XProofTie
 /-!
 # C16 — valid Metamath proofs translate to checkable proofs of the same statement
 
@@ -16,6 +17,11 @@ configuration (`--optimize` or not).  Compressed-proof decoding is C15.
   arbitrary labels; the correspondence harness compares bytes, which do not depend on names).
 * `layout_independent`: two proofs of the same target — with or without reuse marks, optimised or
   not — give the same outcome.
+* `exec_proof_translated`, `exec_proof_step_text_is_the_model`, `exec_proof_text_is_the_model`: `exec_proof` as written in
+  `metamath/translate.py` (`Pi2/Gen/ExecProof.lean`, regenerated from the source on every run by `vlib/transxproof.py`:
+  closures, branch order, stack indices, `save`/`pop`/`instantiate` sequences, `memory_offset`, the `Z` mark) is the model
+  `xstep` / `execProof` the theorems above are stated about — for the converter of a well-formed database
+  (`XProofTie.ofDB`) and fuel `≥ 5` (both needed: `XProofTie.wf_needed`, `XProofTie.fuel_needed`); `Pi2/XProofTie.lean`.
 * NOT covered by a theorem: the byte limits of the wire format (a proof that needs more than 256
   memory slots cannot be serialised: recorded finding KF-C16-slots) and declared notation sugar
   (`#Notation` axioms), which are outside F0.
@@ -62,5 +68,25 @@ theorem layout_independent (cfg₁ cfg₂ : Cfg) (n₁ n₂ : Nat) (db : DB) (go
       verify g₁ c₁ p₁ = some (db.axiomImages.map NPat.expand, [(image db goal).expand]) :=
   MM.translate_layout_independent cfg₁ cfg₂ n₁ n₂ db goal labels₁ labels₂ steps₁ steps₂ s₁ s₂ calls₁ calls₂
     g₁ c₁ p₁ g₂ c₂ p₂ hwf hex₁ hT₁ hcanon₁ hfin₁ hex₂ hT₂ hcanon₂ hfin₂
+
+/-- every statement of `exec_proof`, its closures and `convert_to_implication` is covered by the translator -/
+theorem exec_proof_translated : Gen.XProof.translated = true := XProofTie.translated
+
+/-- one iteration of the loop of `exec_proof` as written (label lookup, dispatch in source order, the interpreter calls of
+the branch with their stack positions and deltas, what is appended to `mm_memory`) is `xstep`, for every state, step
+number and continuation -/
+theorem exec_proof_step_text_is_the_model (cfg : Cfg) (n : Nat) (db : DB) (goal : MM.Term) (labels : List Lbl) (x : XSt)
+    (step : Nat) (k : XSt → PyXProof.R) (hwf : db.wf = true) (hn : 5 ≤ n) :
+    Gen.XProof.step (XProofTie.ofDB db goal) cfg n labels labels.length x step k =
+      PyXProof.bindR (xstep cfg n db labels x step) k :=
+  XProofTie.step_tie db goal cfg n labels x step k (DB.wf_WF db hwf) hn
+
+/-- `exec_proof` as written — `mm_memory = []`, `memory_offset = len(labels)`, the loop, the final comparison with the
+target's pattern, `publish_proof` — is `execProof`: same exception / out-of-fuel / final tracker state and call history -/
+theorem exec_proof_text_is_the_model (cfg : Cfg) (n : Nat) (db : DB) (goal : MM.Term) (labels : List Lbl) (steps : List Nat)
+    (s : PySt) (acc : List Call) (hwf : db.wf = true) (hn : 5 ≤ n) :
+    XProofTie.outcome (Gen.XProof.exec_proof (XProofTie.ofDB db goal) cfg n labels steps s acc) =
+      execProof cfg n db goal labels steps s acc :=
+  XProofTie.exec_proof_tie db goal cfg n labels steps s acc (DB.wf_WF db hwf) hn
 
 end C16
